@@ -25,6 +25,8 @@ def patches():
     out = []
     for p in sorted(glob.glob(V + "/mutants/*.patch")):
         first = open(p).readline()
+        if first.startswith("# retired:") and not any(a in p for a in sys.argv[1:] if not a.startswith("--")):
+            continue
         exp = first.split(":", 1)[1].strip().split(",") if first.startswith("# expect:") else []
         out.append((os.path.basename(p)[:-6], p, exp))
     for d in sorted(glob.glob(V + "/seeded/*/")):
